@@ -18,7 +18,7 @@ Next == ph = "pre" /\ ph' = "post" /\ l' = l
 Spec == Init /\ [][Next]_vars
 
 ev == Rec(l)
-H_WellFormed == ~ev.herr /\ ev.k \in {"c07", "c07sig", "c08", "c12", "c12raw", "vector"}
+H_WellFormed == ~ev.herr /\ ev.k \in {"c07", "c07sig", "c08", "c12", "c12enc", "c12raw", "c18", "vector"}
 
 \* the signing view the code implements (same definition as in Codec.tla)
 SignedSym(s) == IF s \in {"x", "y"} THEN "FFFD-escape" ELSE s
@@ -43,7 +43,12 @@ C08_Deterministic == ev.k = "c08" => ev.determ
 C08_PinnedVectors == ev.k = "vector" => ev.ok
 
 \* ---- C12 ------------------------------------------------------------------
-C12_NoPanic == ev.k \in {"c12", "c12raw"} => ~ev.panic
+C12_NoPanic == ev.k \in {"c12", "c12enc", "c12raw"} => ~ev.panic
+
+\* ---- C18 (entry shapes written directly, incl. those Append never produces) --
+C18_NoClearLinks        == ev.k = "c18" => ev.clear = 0 /\ ev.nlinks = 0
+C18_SameKeyRecovers     == ev.k = "c18" => ev.roundtrip /\ ev.verifyback
+C18_OtherKeyGetsNothing == ev.k = "c18" => ev.nokeylinks = 0 /\ ev.otherlinks = 0
 
 TraceAccepted == TLCGet("stats").distinct = 2 * NRec
 =============================================================================
